@@ -378,6 +378,8 @@ func run(c *hlib.Ctx) {
 	run2(c)
 	runMatrix(c)
 	runPinch(c)
+	runConj(c)
+	runSmart(c)
 }
 
 func main() { hlib.Main("C05", run) }
